@@ -57,6 +57,11 @@ class BaseCurve(Intface_BaseCurve):
             return False
         if (self.ctrlpoints is None) ^ (other.ctrlpoints is None):
             return False
+        if self.weights is not None or other.weights is not None:
+            # Rational curves are equal when the cross products are equal
+            numa, dena = self.fraction()
+            numb, denb = other.fraction()
+            return denb * numa == dena * numb
         newknotvec = self.knotvector | other.knotvector
         selfcopy = copy(self)
         selfcopy.knotvector = newknotvec
